@@ -61,4 +61,6 @@ StepOK == [][LET r == [s |-> s', out |-> out'] IN StepProps(s, last', r) /\ Site
 
 Export == (ExportEvery > 0 /\ hist # <<>> /\ (ExportEvery = 1 \/ RandomElement(1..ExportEvery) = 1))
              => PrintT(ToJson([init |-> m0, steps |-> hist]))
+\* random walks (TLC -simulate): one export per walk, at its last state
+ExportLeaf == Len(hist) = MaxDepth => PrintT(ToJson([init |-> m0, steps |-> hist]))
 =============================================================================
